@@ -111,11 +111,82 @@ func genPoolOp(r *Rng) *Op {
 func genPoolMain(seed uint64, n int) int {
 	ops := make([]*Op, n)
 	for i := range ops {
-		ops[i] = genPoolOp(NewRng(seed, lbl("pool"), uint64(i)))
+		r := NewRng(seed, lbl("pool"), uint64(i))
+		ops[i] = genPoolOp(r)
+		// Sibling ops: same signer keys, messages and (mostly) signatures as an
+		// earlier op, with one thing changed. A cache or scratch state keyed too
+		// coarsely returns the earlier op's answer for the later one.
+		if i > 0 && r.Chance(1, 3) {
+			if sib := siblingOf(r, ops[r.Intn(i)]); sib != nil {
+				ops[i] = sib
+			}
+		}
 	}
 	b, _ := json.Marshal(ops)
 	os.Stdout.Write(append(b, '\n'))
 	return 0
+}
+
+func cloneOp(op *Op) *Op {
+	b, _ := json.Marshal(op)
+	var n Op
+	json.Unmarshal(b, &n)
+	return &n
+}
+
+func siblingOf(r *Rng, base *Op) *Op {
+	op := cloneOp(base)
+	switch op.Fn {
+	case "Verify", "VerifyOpts":
+		kinds := []string{"ok", "msg", "fS", "fR", "fA", "sL"}
+		e := Entry{K: kinds[r.Intn(len(kinds))], P: r.Intn(1 << 16)}
+		if op.E != nil {
+			e.ML, e.Key = op.E.ML, op.E.Key
+			if e.K == op.E.K {
+				e.K = "ok"
+			}
+		}
+		op.E = &e
+		if op.Fn == "VerifyOpts" && r.Chance(1, 3) {
+			op.Opt.Zip = !op.Opt.Zip
+		}
+	case "VerifyBatch":
+		n := len(op.Entries)
+		if n == 0 {
+			return nil
+		}
+		switch r.Intn(3) {
+		case 0: // one entry flips between good and bad
+			i := r.Intn(n)
+			if op.Entries[i].K == "ok" {
+				op.Entries[i].K = []string{"msg", "fS", "fR"}[r.Intn(3)]
+				op.Entries[i].P = r.Intn(1 << 16)
+			} else {
+				op.Entries[i].K = "ok"
+			}
+		case 1: // a shorter batch with the same leading entries
+			op.Entries = op.Entries[:r.Range(1, n)]
+		case 2: // all entries repaired
+			for i := range op.Entries {
+				op.Entries[i].K = "ok"
+			}
+		}
+	case "Sign", "PrivSign":
+		if r.Chance(1, 2) {
+			op.ML = op.ML + 1
+		} else if op.Fn == "PrivSign" && op.Opt.Form == 0 && op.Opt.Hash <= 1 {
+			op.Opt.Ctx = (op.Opt.Ctx + 1) % 256
+		} else {
+			op.ML = op.ML / 2
+		}
+	case "X25519":
+		op.Pt = (op.Pt + 1 + r.Intn(2)) % 4
+	case "GenerateKey":
+		op.NilRd = !op.NilRd
+	default:
+		return nil
+	}
+	return op
 }
 
 func loadPool(path string) []*Op {
@@ -144,7 +215,9 @@ func soloMain(poolFile string, index, count int) int {
 	installHooks()
 	ops := loadPool(poolFile)
 	for i := index; i < index+count && i < len(ops); i++ {
-		out := execOp(prepare(ops[i]))
+		p := prepare(ops[i])
+		out := execOp(p)
+		p.G.Release()
 		emit(Ref{T: "ref", I: i, Digest: out.Digest(), Pts: out.Pts, Fn: ops[i].Fn})
 	}
 	return 0
@@ -324,6 +397,7 @@ type clientState struct {
 
 func clientMain(id int, cs *clientState, wg *sync.WaitGroup) {
 	defer wg.Done()
+	debug.SetPanicOnFault(true)
 	zzsimrt.ClientStart(id)
 	for _, p := range cs.ops {
 		o := execOp(p)
@@ -547,6 +621,11 @@ func runEpisode(ep *Episode, pool []*Op, refs []Ref, st *ConcStats, a *concArgs)
 	}
 	wg.Wait()
 	zzsimrt.StopBaton()
+	defer func() {
+		for _, p := range prepared {
+			p.G.Release()
+		}
+	}()
 	st.Points += zzsimrt.Total() - start
 	st.Families[ep.Family]++
 	if overlapped {
@@ -572,6 +651,13 @@ func runEpisode(ep *Episode, pool []*Op, refs []Ref, st *ConcStats, a *concArgs)
 			}
 			if o.Panic != "" && !o.Budget {
 				st.Fired["documented_or_other_panic"]++
+			}
+			if o.Fault && viol == nil {
+				// absolute, not relative to the solo run: the library wrote to
+				// an input that every client shares
+				viol = &ViolationRec{T: "violation", Prop: "C15", CheckID: "conc-input-modified", Engine: "conc",
+					Msg:      fmt.Sprintf("client %d op %d (%s, pool #%d) wrote to a shared, caller-owned input (read-only page fault)", c, j, pool[pi].Fn, pi),
+					Expected: "inputs are only read", Actual: o.Digest()}
 			}
 			if d := o.Digest(); d != refs[pi].Digest && viol == nil {
 				check := "conc-isolation"
